@@ -93,6 +93,7 @@ def _objects():
                                                                kernel_initializer=PL.UniformOutputInitializer(output_min=-3.0, output_max=7.0, monotonicity=-1),
                                                                kernel_regularizer=PL.HessianRegularizer(l1=0.5, l2=0.25, is_cyclic=False))),
       ('ParallelCombination', lambda: _pc(PCL, PL, CL)),
+      ('ParallelCombination#same-names', lambda: _pc_same_names(PCL, PL)),
       ('LatticeConstraints', lambda: LL.LatticeConstraints(lattice_sizes=[3, 3], monotonicities=[1, 1], unimodalities=None, edgeworth_trusts=[(0, 1, 1)],
                                                            trapezoid_trusts=[(0, 1, 1)], monotonic_dominances=[(0, 1)], range_dominances=[(0, 1)],
                                                            joint_monotonicities=[(0, 1)], joint_unimodalities=None, output_min=0.0, output_max=1.0,
@@ -142,6 +143,24 @@ def _pc(PCL, PL, CL):
   pc = PCL.ParallelCombination(single_output=False)
   pc.append(PL.PWLCalibration(input_keypoints=[0.0, 1.0, 2.0], output_min=0.0, output_max=1.0, monotonicity=1))
   pc.append(CL.CategoricalCalibration(num_buckets=3, default_input_value=-1))
+  return pc
+
+
+def _pc_pwl(PCL, L, same):
+  pc = PCL.ParallelCombination(single_output=True)
+  tmpl = L.PWLCalibration(input_keypoints=[0.0, 1.0, 2.0], output_min=0.0, output_max=1.0, name='calib')
+  for i in range(3):
+    pc.append(L.PWLCalibration.from_config(tmpl.get_config()) if same else
+              L.PWLCalibration(input_keypoints=[0.0, 1.0, 2.0 + i], output_min=0.0, output_max=1.0, monotonicity=i % 2))
+  return pc
+
+
+def _pc_same_names(PCL, PL):
+  """three distinct calibrators carrying the same layer name (copies of one template config)"""
+  tmpl = PL.PWLCalibration(input_keypoints=[0.0, 1.0, 2.0], output_min=0.0, output_max=1.0, name='calib')
+  pc = PCL.ParallelCombination(single_output=True)
+  for _ in range(3):
+    pc.append(PL.PWLCalibration.from_config(tmpl.get_config()))
   return pc
 
 
@@ -252,12 +271,18 @@ def _layer_specs():
                                                         monotonicity=1, impute_missing=False), [2], False),
       ('CDF', lambda: L.CDF(num_keypoints=2, units=2, activation='sigmoid', reduction='none', input_scaling_init=2.0, input_scaling_type='learned_shared',
                             sparsity_factor=2), [2], False),
+      # a combination of calibrators: the rebuilt layer holds one calibrator (and one set of variables) per input, also when the
+      # calibrators carry the same layer name (copies of one template config)
+      ('ParallelCombination-pwl', lambda: _pc_pwl(tfl.parallel_combination_layer, L, False), [3], False),
+      ('ParallelCombination-same-names', lambda: _pc_pwl(tfl.parallel_combination_layer, L, True), [3], False),
   ]
 
 
 def _match_vars(case, label, a, b):
   va, vb = list(a.weights), list(b.weights)
   ok = len(va) == len(vb) and all(tuple(x.shape) == tuple(y.shape) and x.name.split('/')[-1] == y.name.split('/')[-1] for x, y in zip(va, vb))
+  # ... and as many distinct variables: two weights of the original must not have become one shared variable
+  ok = ok and len(set(x.ref() for x in va)) == len(set(y.ref() for y in vb))
   case.record('rebuilt-object-has-same-variables[%s]' % label, 'unsat' if ok else 'sat', kind='structural', witness={}, replay=dict(fn='variables', label=label),
               sig=dict(query='variables', label=label),
               note='%s vs %s' % ([(x.name, tuple(x.shape)) for x in va], [(y.name, tuple(y.shape)) for y in vb]))
@@ -305,9 +330,12 @@ def _functional_layer(case, label, thunk, shp, is_int, mode, co):
   if not a.built:
     a.build(tf.TensorShape([None] + shp))
   b.build(tf.TensorShape([None] + shp))
+  dt = tf.int32 if is_int else tf.float32
+  # layers that create the variables of their sub-layers only when called (ParallelCombination)
+  a(tf.zeros([1] + shp, dtype=dt))
+  b(tf.zeros([1] + shp, dtype=dt))
   if not _match_vars(case, tag, a, b):
     return
-  dt = tf.int32 if is_int else tf.float32
   ta = Traced(lambda x: _flat(a(x), tf), [tf.TensorSpec([1] + shp, dt)], name=label)
   tb = Traced(lambda x: _flat(b(x), tf), [tf.TensorSpec([1] + shp, dt)], name=label + "'")
   xs = [sym.symbolic('x', tuple([1] + shp))] if not is_int else [sym.obj(np.array(c).reshape([1] + shp)) for c in itertools.product(range(3), repeat=int(np.prod(shp)))][::4]
@@ -597,15 +625,24 @@ def replay(r):
           return dict(reproduced=True, detail='%s: %s' % (type(e).__name__, str(e)[:200]))
   specs_ = {l: (t, s, i) for l, t, s, i in _layer_specs()}
   if rp['fn'] == 'variables':
-    thunk, shp, is_int = specs_[rp['label']]
+    lbl, _, mode = rp['label'].partition(',via-')
+    thunk, shp, is_int = specs_[lbl]
     a = thunk()
     with keras.utils.custom_object_scope(co):
-      b = type(a).from_config(a.get_config())
+      if mode == 'built':
+        a.build(tf.TensorShape([None] + shp))
+      cfg = a.get_config()
+      if mode == 'json':
+        cfg = json.loads(json.dumps(cfg, default=_json_default))
+      b = type(a).from_config(cfg)
     a.build(tf.TensorShape([None] + shp))
     b.build(tf.TensorShape([None] + shp))
+    for l in (a, b):
+      l(tf.zeros([1] + shp, dtype=tf.int32 if is_int else tf.float32))
     va = [(x.name.split('/')[-1], tuple(x.shape)) for x in a.weights]
     vb = [(x.name.split('/')[-1], tuple(x.shape)) for x in b.weights]
-    return dict(reproduced=va != vb, detail=dict(original=va, rebuilt=vb))
+    na, nb = len(set(x.ref() for x in a.weights)), len(set(x.ref() for x in b.weights))
+    return dict(reproduced=va != vb or na != nb, detail=dict(original=va, rebuilt=vb, distinct_variables=[na, nb]))
   if rp['fn'] == 'layer-built-config':
     thunk, shp, is_int = specs_[rp['label']]
     a = thunk()
